@@ -1,4 +1,6 @@
 import GnarkVerif.Model.Util
+import GnarkVerif.Model.Sha256
+import GnarkVerif.Model.MiMC
 /-
 C15 — executable model of fiat-shamir/transcript.go (by-value semantics).
 
@@ -6,7 +8,15 @@ Go code modelled: `NewTranscript`, `Bind`, `ComputeChallenge`.
 * the map name ↦ challenge{position,…} is a list in position order (names assumed distinct, as the
   property's quantifier says "an ordered list of challenge names");
 * `t.previous` is the position of the last freshly computed challenge;
-* the hash is a parameter `H : Bytes → Bytes` (Reset; Write …; Sum(nil) = H of the concatenation).
+* the hash is specified on the SEQUENCE OF WRITES (a `hash.Hash` need not be a byte-stream hash):
+  `W : Bytes → Option Bytes` says how ONE `Write` call is absorbed (`some` of the bytes actually absorbed,
+  `none` = `Write` returned an error), `H : Bytes → Bytes` is `Sum(nil)` as a function of the concatenation of
+  the absorbed bytes since `Reset`.  SHA-256: `W = some`.  MiMC: a write shorter than a block is left-padded
+  to one block, any other write must be a sequence of canonical field elements (`mimcW`), `H` = Miyaguchi–Preneel.
+* `ComputeChallenge` does `Reset; Write(name); [previous-computed check; Write(previous)]; Write(b) for each
+  bound b; Sum(nil)`; a failing `Write` makes it return the error before anything is stored (and the deferred
+  `Reset` clears the hasher), so the transcript is unchanged (`err:hash`).  The order of the checks is the
+  order of the Go code: the name is written before the predecessor check.
 Slices are values here: the model *is* the no-aliasing specification; the correspondence harness
 performs caller-side mutations of every slice handed in or out and the Go results must still agree.
 -/
@@ -25,7 +35,7 @@ structure State where
   prev : Option Nat := none
 deriving Repr, DecidableEq
 
-inductive Err | notFound | alreadyComputed | prevNotComputed
+inductive Err | notFound | alreadyComputed | prevNotComputed | hash
 deriving Repr, DecidableEq
 
 inductive Op
@@ -43,11 +53,22 @@ def init (names : List Bytes) : State := { chals := names.map (fun n => { name :
 
 def find (cs : List Chal) (name : Bytes) : Option Nat := cs.findIdx? (fun c => c.name = name)
 
-/-- what is fed to the hash for challenge number `i` -/
-def preimage (cs : List Chal) (i : Nat) (c : Chal) : Bytes :=
-  c.name ++ (if i = 0 then [] else ((cs[i-1]?).bind (·.value)).getD []) ++ c.bindings.flatten
+/-- the `Write` calls issued for challenge number `i`, in order: name, previous value (if `i ≠ 0`), bound values -/
+def writes (cs : List Chal) (i : Nat) (c : Chal) : List Bytes :=
+  c.name :: ((if i = 0 then [] else [((cs[i-1]?).bind (·.value)).getD []]) ++ c.bindings)
 
-def step (H : Bytes → Bytes) (s : State) : Op → State × Out
+/-- what the hasher has absorbed after these `Write` calls; `none` as soon as one of them is refused -/
+def absorb (W : Bytes → Option Bytes) : List Bytes → Option Bytes
+  | [] => some []
+  | w :: ws =>
+    match W w with
+    | none => none
+    | some a =>
+      match absorb W ws with
+      | none => none
+      | some r => some (a ++ r)
+
+def step (W : Bytes → Option Bytes) (H : Bytes → Bytes) (s : State) : Op → State × Out
   | .bind name v =>
     match find s.chals name with
     | none => (s, .err .notFound)
@@ -67,23 +88,45 @@ def step (H : Bytes → Bytes) (s : State) : Op → State × Out
         match c.value with
         | some v => (s, .val v)
         | none =>
-          if i ≠ 0 ∧ s.prev ≠ some (i-1) then (s, .err .prevNotComputed)
-          else
-            let v := H (preimage s.chals i c)
-            ({ chals := s.chals.set i { c with value := some v }, prev := some i }, .val v)
+          match W c.name with
+          | none => (s, .err .hash)
+          | some _ =>
+            if i ≠ 0 ∧ s.prev ≠ some (i-1) then (s, .err .prevNotComputed)
+            else
+              match absorb W (writes s.chals i c) with
+              | none => (s, .err .hash)
+              | some bs =>
+                ({ chals := s.chals.set i { c with value := some (H bs) }, prev := some i }, .val (H bs))
 
-def run (H : Bytes → Bytes) (s : State) : List Op → State × List Out
+def run (W : Bytes → Option Bytes) (H : Bytes → Bytes) (s : State) : List Op → State × List Out
   | [] => (s, [])
   | op :: ops =>
-    let (s', o) := step H s op
-    let (s'', os) := run H s' ops
+    let (s', o) := step W H s op
+    let (s'', os) := run W H s' ops
     (s'', o :: os)
 
+/-! ### the two hashes of the property's quantifier -/
+
+/-- one `Write` of `mimc.digest`: left-pad a short write to a block; refuse unless a sequence of canonical elements -/
+def mimcW (P : MiMC.Params) (p : Bytes) : Option Bytes :=
+  match MiMC.decodeBlocks P (MiMC.pad P p) with
+  | some _ => some (MiMC.pad P p)
+  | none => none
+
+/-- `Sum(nil)` of `mimc.digest` from the fresh state, as a function of the absorbed bytes -/
+def mimcH (P : MiMC.Params) (bs : Bytes) : Bytes :=
+  match MiMC.decodeBlocks P bs with
+  | some xs => MiMC.encBE P.size (MiMC.mp P 0 xs)
+  | none => []
+
 /-! line protocol:  `C15 <hash> <name1,name2,…> <op> <op> …`
+    hash = `sha256` | `mimc:<curve>:<c0,c1,…>` | `mimcle:<curve>:<c0,c1,…>` (LittleEndian option); the MiMC round
+    constants travel on the line (the Go side refuses the line unless they equal `GetConstants()`);
     op = `B:<namehex>:<valuehex>` | `C:<namehex>` | `M:<k>` (caller-side mutation: ignored by the by-value model) -/
 
 def errStr : Err → String
   | .notFound => "err:notfound" | .alreadyComputed => "err:computed" | .prevNotComputed => "err:prev"
+  | .hash => "err:hash"
 
 def outStr : Out → String
   | .ok => "ok" | .val v => bytesToHex v | .err e => errStr e
@@ -94,13 +137,27 @@ def parseOp (tok : String) : Option Op :=
   | ["C", n] => some (.compute (parseBytes n))
   | _ => none
 
-def handle (H : Bytes → Bytes) (args : List String) : String :=
+def handleWH (W : Bytes → Option Bytes) (H : Bytes → Bytes) (args : List String) : String :=
   match args with
   | names :: ops =>
     let ns := (names.splitOn ",").map parseBytes
     let ops' := ops.filterMap parseOp
-    let (_, outs) := run H (init ns) ops'
+    let (_, outs) := run W H (init ns) ops'
     " ".intercalate (outs.map outStr)
+  | _ => "bad-op"
+
+def handle (args : List String) : String :=
+  match args with
+  | "sha256" :: rest => handleWH some Sha256.hash rest
+  | h :: rest =>
+    match h.splitOn ":" with
+    | [kind, curve, cs] =>
+      if kind == "mimc" || kind == "mimcle" then
+        match MiMC.paramsOf curve (MiMC.parseList cs) (kind == "mimcle") with
+        | none => "bad-consts"
+        | some P => handleWH (mimcW P) (mimcH P) rest
+      else "bad-op"
+    | _ => "bad-op"
   | _ => "bad-op"
 
 end GV.Transcript
